@@ -320,9 +320,9 @@ def setup(concepts, spec):
     probes.install(['prime'])
     cap = CAP[spec['tier']]
     attach.attach_ctor(concepts)
-    attach.attach(concepts.contexts.PrimeMixin, '__getitem__', CtxGetitem(cap))
-    attach.attach(concepts.lattices.CollectionMixin, '__getitem__', LatGetitem(cap))
-    attach.attach(concepts.lattices.CollectionMixin, '__call__', LatCall(cap))
+    attach.attach(concepts.Context, '__getitem__', CtxGetitem(cap))
+    attach.attach(concepts.lattices.Lattice, '__getitem__', LatGetitem(cap))
+    attach.attach(concepts.lattices.Lattice, '__call__', LatCall(cap))
     global POOL
     POOL = common.Pool(5)
 
